@@ -60,8 +60,39 @@ def _is_docstring(st):
     return isinstance(st, ast.Expr) and isinstance(st.value, ast.Constant) and isinstance(st.value.value, str)
 
 
+_MODULE_FUNCS = {}
+
+
+def _only_prints(fn):
+    return all(_is_docstring(b) or _is_print(b) or (isinstance(b, ast.Assign) and isinstance(b.value, ast.Constant)) for b in fn.body)
+
+
 def _is_print(st):
-    return isinstance(st, ast.Expr) and isinstance(st.value, ast.Call) and isinstance(st.value.func, ast.Name) and st.value.func.id == "print"
+    if not (isinstance(st, ast.Expr) and isinstance(st.value, ast.Call) and isinstance(st.value.func, ast.Name)):
+        return False
+    nm = st.value.func.id
+    if nm == "print":
+        return True
+    # a module-level helper that does nothing but print (e.g. a deprecation notice)
+    return nm in _MODULE_FUNCS and not st.value.args and nm not in _only_prints.__dict__.setdefault("busy", set()) and _only_prints_guard(nm)
+
+
+def _only_prints_guard(nm):
+    busy = _only_prints.__dict__.setdefault("busy", set())
+    busy.add(nm)
+    try:
+        return _only_prints(_MODULE_FUNCS[nm])
+    finally:
+        busy.discard(nm)
+
+
+def _is_join_if_list(fn):
+    """def f(x): if isinstance(x, list): return " ".join(x) ; return x"""
+    body = [b for b in fn.body if not _is_docstring(b)]
+    if len(fn.args.args) != 1 or len(body) != 2:
+        return False
+    x = fn.args.args[0].arg
+    return ast.unparse(body[0]) == "if isinstance(%s, list):\n    return ' '.join(%s)" % (x, x) and ast.unparse(body[1]) == "return %s" % x
 
 
 def _confs_target(n):
@@ -145,6 +176,9 @@ def _opt_block(dest, body, strs):
         if isinstance(e, ast.Call) and isinstance(e.func, ast.Attribute) and e.func.attr == "join" and _const_str(e.func.value) == " " and len(e.args) == 1:
             if sym(e.args[0]) == "ARG":
                 return "JOIN"
+        if isinstance(e, ast.Call) and isinstance(e.func, ast.Name) and e.func.id in _MODULE_FUNCS and len(e.args) == 1 and not e.keywords \
+                and _is_join_if_list(_MODULE_FUNCS[e.func.id]) and sym(e.args[0]) == "ARG":
+            return "IFLIST"
         s = _const_str(e)
         if s is not None:
             return ("CONST", s)
@@ -920,6 +954,184 @@ def _is_keys_loop(st, confs_names):
     return any(isinstance(b, ast.If) and isinstance(b.test, ast.Compare) and isinstance(b.test.left, ast.Name) and b.test.left.id == k for b in st.body)
 
 
+def _row_tables(tree, classes):
+    """module / class level `NAME = ( (c, c, …), … )`: rows of constants (str, None, bool, numbers) or plain names"""
+    out = {}
+
+    def rows(v):
+        if not isinstance(v, (ast.Tuple, ast.List)) or not v.elts:
+            return None
+        rs = []
+        for r in v.elts:
+            if isinstance(r, (ast.Tuple, ast.List)):
+                if not all(isinstance(x, (ast.Constant, ast.Name)) for x in r.elts):
+                    return None
+                rs.append(list(r.elts))
+            elif isinstance(r, ast.Constant):
+                rs.append([r])
+            else:
+                return None
+        return rs if len({len(r) for r in rs}) == 1 else None
+
+    for scope in [tree] + list(classes):
+        for st in scope.body:
+            if isinstance(st, ast.Assign) and len(st.targets) == 1 and isinstance(st.targets[0], ast.Name):
+                r = rows(st.value)
+                if r is not None:
+                    out[st.targets[0].id] = r
+    return out
+
+
+def _continue_to_if(body):
+    """inside a loop body: `if c: continue` + rest -> `if not c: rest`"""
+    out = []
+    for i, st in enumerate(body):
+        if isinstance(st, ast.If) and not st.orelse and len(st.body) == 1 and isinstance(st.body[0], ast.Continue):
+            rest = _continue_to_if(body[i + 1:])
+            if rest:
+                test = _SimplifyNot().visit(ast.UnaryOp(op=ast.Not(), operand=st.test))
+                out.append(ast.fix_missing_locations(ast.copy_location(ast.If(test=test, body=rest, orelse=[]), st)))
+            return out
+        out.append(st)
+    return out
+
+
+def _unroll(body, tables):
+    """`for a, b, … in TABLE: body` over a constant table of literal rows -> the body once per row, targets substituted"""
+    import copy
+
+    out = []
+    for st in body:
+        for fld in ("body", "orelse"):
+            if isinstance(st, (ast.If, ast.For)) and getattr(st, fld, None):
+                setattr(st, fld, _unroll(getattr(st, fld), tables))
+        tname = None
+        if isinstance(st, ast.For) and not st.orelse:
+            tname = st.iter.id if isinstance(st.iter, ast.Name) else _self_attr_name(st.iter)
+        if tname in tables and not any(isinstance(n, ast.Break) for n in ast.walk(st)):
+            tg = st.target
+            names = [tg.id] if isinstance(tg, ast.Name) else ([e.id for e in tg.elts] if isinstance(tg, ast.Tuple) and all(isinstance(e, ast.Name) for e in tg.elts) else None)
+            rows = tables[tname]
+            if names is not None and len(names) == len(rows[0]) and not any(
+                    isinstance(n, ast.Name) and isinstance(n.ctx, ast.Store) and n.id in names for b in st.body for n in ast.walk(b)):
+                lb = _continue_to_if(st.body)
+                if not any(isinstance(n, ast.Continue) for b in lb for n in ast.walk(b)):
+                    for row in rows:
+                        mp = dict(zip(names, row))
+                        out += [_RenameNames(mp).visit(copy.deepcopy(b)) for b in lb]
+                    continue
+        out.append(st)
+    return out
+
+
+_BUILTIN_NAMES = ("int", "float", "str", "bool", "list", "tuple")
+
+
+def _static(t):
+    """truth value of a test that is decided at translation time, else None"""
+    if isinstance(t, ast.Constant):
+        return bool(t.value)
+    if isinstance(t, ast.Name) and t.id in _BUILTIN_NAMES:
+        return True
+    if isinstance(t, ast.UnaryOp) and isinstance(t.op, ast.Not):
+        v = _static(t.operand)
+        return None if v is None else not v
+    if isinstance(t, ast.Compare) and len(t.ops) == 1:
+        a, b, op = t.left, t.comparators[0], t.ops[0]
+
+        def lit(x):
+            if isinstance(x, ast.Constant):
+                return True, x.value
+            if isinstance(x, ast.Name) and x.id in _BUILTIN_NAMES:
+                return True, ("<builtin>", x.id)
+            return False, None
+        ka, va = lit(a)
+        if isinstance(op, (ast.In, ast.NotIn)) and ka and isinstance(b, (ast.Tuple, ast.List)) and all(isinstance(e, ast.Constant) for e in b.elts):
+            r = va in [e.value for e in b.elts]
+            return r if isinstance(op, ast.In) else not r
+        kb, vb = lit(b)
+        if ka and kb:
+            if isinstance(op, (ast.Eq, ast.Is)):
+                return va == vb and type(va) is type(vb)
+            if isinstance(op, (ast.NotEq, ast.IsNot)):
+                return not (va == vb and type(va) is type(vb))
+    if isinstance(t, ast.BoolOp):
+        vals = [_static(v) for v in t.values]
+        if isinstance(t.op, ast.And):
+            if any(v is False for v in vals):
+                return False
+            if all(v is True for v in vals):
+                return True
+        else:
+            if any(v is True for v in vals):
+                return True
+            if all(v is False for v in vals):
+                return False
+    return None
+
+
+class _FoldExpr(ast.NodeTransformer):
+    def visit_Call(self, node):
+        self.generic_visit(node)
+        # getattr(x, "name") -> x.name
+        if isinstance(node.func, ast.Name) and node.func.id == "getattr" and len(node.args) == 2 and isinstance(node.args[1], ast.Constant) and isinstance(node.args[1].value, str) and node.args[1].value.isidentifier():
+            return ast.copy_location(ast.Attribute(value=node.args[0], attr=node.args[1].value, ctx=ast.Load()), node)
+        return node
+
+    def visit_BoolOp(self, node):
+        self.generic_visit(node)
+        keep = []
+        for v in node.values:
+            sv = _static(v)
+            if isinstance(node.op, ast.And) and sv is True:
+                continue
+            if isinstance(node.op, ast.Or) and sv is False:
+                continue
+            keep.append(v)
+        if not keep:
+            return ast.copy_location(ast.Constant(value=isinstance(node.op, ast.And)), node)
+        if len(keep) == 1:
+            return keep[0]
+        node.values = keep
+        return node
+
+
+def _fold(body):
+    """drop branches decided at translation time; inline `f = self._settings.set_x` aliases used as callables"""
+    import copy
+
+    out = []
+    alias = {}
+    for st in body:
+        st = _FoldExpr().visit(st)
+        if alias:
+            st = _RenameNames(alias).visit(st)
+        if isinstance(st, ast.Assign) and len(st.targets) == 1 and isinstance(st.targets[0], ast.Name) and isinstance(st.value, ast.Attribute) \
+                and _self_attr_name(st.value.value) == "_settings" and st.value.attr.startswith("set_"):
+            alias[st.targets[0].id] = st.value
+            continue
+        if isinstance(st, ast.If):
+            st.test = _SimplifyNot().visit(st.test)
+            sv = _static(st.test)
+            if sv is True:
+                out += _fold(st.body)
+                continue
+            if sv is False:
+                out += _fold(st.orelse)
+                continue
+            st.body = _fold(st.body)
+            st.orelse = _fold(st.orelse)
+            if not st.body and not st.orelse:
+                continue
+            if not st.body:
+                st.test = _SimplifyNot().visit(ast.UnaryOp(op=ast.Not(), operand=st.test))
+                st.body, st.orelse = st.orelse, []
+        elif isinstance(st, ast.For):
+            st.body = _fold(st.body)
+        out.append(st)
+    return out
+
+
 def _class_constants(c):
     out = {}
     for st in c.body:
@@ -1020,6 +1232,8 @@ def normalise(tree):
     missing = [a for a in CANON_ATTR if a not in found]
     if missing:
         raise TranslateError("cannot find the attributes behind %s through the public properties / set_parameter / __getattr__" % missing)
+    _MODULE_FUNCS.clear()
+    _MODULE_FUNCS.update({n.name: n for n in tree.body if isinstance(n, ast.FunctionDef)})
     ren = {v: k for k, v in found.items() if v != k}
     if len(set(found.values())) != len(found):
         raise TranslateError("two roles share one private attribute: %s" % found)
@@ -1027,6 +1241,7 @@ def normalise(tree):
         _RenameSelfAttr(ren).visit(tree)
     _SubstConstants(consts).visit(tree)
     _SimplifyNot().visit(tree)
+    row_tables = _row_tables(tree, cls.values())
     for c in cls.values():
         for m in c.body:
             if isinstance(m, ast.FunctionDef):
@@ -1098,6 +1313,11 @@ def normalise(tree):
             fn = ms.get(nm)
             if fn is None:
                 raise TranslateError("%s.%s not found" % (cname, nm))
+            for _ in range(3):  # loops over constant tables unrolled, helpers inlined with the row's constants, decided branches dropped
+                fn.body = _unroll(fn.body, row_tables)
+                inline(cls[cname], fn)
+                _SubstConstants(consts).visit(fn)
+                fn.body = _fold(fn.body)
             if nm.endswith("parse_conf"):
                 tables = dict(consts_tables)
                 tables.update(_class_constants(cls["ConfParser"]))
